@@ -174,21 +174,24 @@ PIPE_BUGS = {
 
 
 def pipe_class(e):
-    """Which property a divergence of the real pipelined transport from PipeStep belongs to."""
+    """Which properties a divergence of the real pipelined transport from PipeStep belongs to."""
     if e["ev"] == "rp.leak":
-        return "C18"
+        return {"C18"}
     if e["ev"] == "rp.stuck":
-        return "C14"
+        return {"C14"}
     if e["ev"] == "rp.note":
-        return "C05"
+        return {"C05"}
     fields = {x.split(":")[0].split("[")[0] for x in e.get("diff", [])}
+    cls = set()
     if e.get("closed") or e.get("act") == "Close" or "tclosed" in fields:
-        return "C18"
-    if fields & {"got", "qid", "nextqid", "nqueue", "rl"}:
-        return "C05"
-    if any("reply" in x for x in e.get("diff", [])):
-        return "C05"
-    return "C14"
+        cls.add("C18")
+    if fields & {"got", "qid", "nextqid", "nqueue", "rl"} or any("reply" in x for x in e.get("diff", [])):
+        cls.add("C05")
+    # which connections the pool knows, and in what state: what Close can reach (C18) and what an exchange is
+    # given (C14)
+    if fields & {"pool", "streams", "cst", "dqsum"}:
+        cls |= {"C14", "C18"}
+    return cls or {"C14"}
 
 
 def pipe_part(ctx, drv, prop):
@@ -237,9 +240,9 @@ def pipe_part(ctx, drv, prop):
             if e["ev"] not in ("rp.diverge", "rp.stuck", "rp.leak", "rp.note"):
                 continue
             cls = pipe_class(e)
-            if cls != prop:
+            if prop not in cls:
                 ctx.extra.setdefault("other_property_rejections_ignored", {})
-                k = "pipe-replay:" + cls
+                k = "pipe-replay:" + "+".join(sorted(cls))
                 ctx.extra["other_property_rejections_ignored"][k] = ctx.extra["other_property_rejections_ignored"].get(k, 0) + 1
                 continue
             if e["ev"] == "rp.leak":
